@@ -322,12 +322,14 @@ func TestProp(t *testing.T) {
 			"(0, 1ns, FailTimeout/3, /2, FailTimeout-1ns, FailTimeout, FailTimeout+1ns, 2*FailTimeout), Run(subset) and Resolve(subset); Fails 1-3 (or default), FailTimeout 2ns..5min (or default); " +
 			"every Run/Resolve result is compared with the rule evaluated literally over the recorded failure times (host filtered iff a failure no older than FailTimeout has >= Fails failures in the FailTimeout window ending at it); " +
 			"Resolve additionally must be non-empty for a non-empty list and equal to the whole list when every host is filtered; an evaluation is one Run/Resolve; " +
-			"non-trivial = a host was observed filtered and an evaluation was either decided by an exact FailTimeout boundary or saw a filtered host healthy again; distinct by case hash",
+			"part overlap: the harness's clock holds one Failed call at the instant it reads the time, advances and starts further Failed calls meanwhile, then releases it; a failure is recorded at some instant of its call, and a Run result must be explained by some placement of every failure within its call; " +
+			"non-trivial = a host was observed filtered and an evaluation was either decided by an exact FailTimeout boundary or saw a filtered host healthy again (overlap: a host with overlapping Failed calls was judged); distinct by case hash",
 		Assumptions: []string{
 			"oracle: the window rule computed from the recorded failure times (reference written from the statement and the PassiveFilterConfig doc)",
 			"the window is the FailTimeout interval ending at the anchoring failure (config doc); where the two-sided reading of 'within FailTimeout of some failure' gives a different answer either result is accepted",
 			"the time source is a clock.Clock whose Now is set by the timeline (the filter reads nothing else)",
+			"overlap part: interleavings are owned only at the clock read of one held call; a call that has not returned within 3 ms is treated as still running (wider set of accepted placements, never a narrower one)",
 		},
-		Parts: []pbt.Part{pbt.NewPart("timeline", 1, gen, run)},
+		Parts: []pbt.Part{pbt.NewPart("timeline", 9, gen, run), pbt.NewPart("overlap", 1, genOv, runOv)},
 	})
 }
